@@ -701,7 +701,8 @@ pub(crate) fn h_cleanup_function_chain() {
     let n = 1 + vrt_choice(3);
     let user = vrt_choice(n + 1);             // == n: nobody uses the chain
     let site = vrt_choice(4);                 // 0 MEASUREMENT, 1 CHARACTERISTIC, 2 AXIS_PTS, 3 GROUP
-    let content = vrt_choice(2) == 1;         // the last function has a LOC_MEASUREMENT
+    let ckind = vrt_choice(3);                // the last function: no members / a LOC_MEASUREMENT / only a reference to an object that does not exist
+    let content = ckind == 1;
     let mut t = String::from("ASAP2_VERSION 1 71 /begin PROJECT p \"\" /begin MODULE m \"\"\n/begin RECORD_LAYOUT rl FNC_VALUES 1 UBYTE ROW_DIR DIRECT AXIS_PTS_X 2 UBYTE INDEX_INCR DIRECT /end RECORD_LAYOUT\n");
     let mut fl = String::new();
     if user < n {
@@ -723,12 +724,14 @@ pub(crate) fn h_cleanup_function_chain() {
             t.push_str(" /end SUB_FUNCTION");
         } else if content {
             t.push_str(" /begin LOC_MEASUREMENT ms /end LOC_MEASUREMENT");
+        } else if ckind == 2 {
+            t.push_str(" /begin LOC_MEASUREMENT ms_gone /end LOC_MEASUREMENT /begin DEF_CHARACTERISTIC ch_gone /end DEF_CHARACTERISTIC");
         }
         t.push_str(" /end FUNCTION\n");
     }
     t.push_str("/end MODULE /end PROJECT");
     let (mut file, _) = load_from_string(&t, None, true).unwrap();
-    vrt_check(xref_errors(&file) == 0, "C10 (harness) the function chain document is consistent");
+    if ckind != 2 { vrt_check(xref_errors(&file) == 0, "C10 (harness) the function chain document is consistent"); }
     file.cleanup();
     {
         let m = &file.project.module[0];
